@@ -7,7 +7,7 @@ import re
 from harness import family
 from harness.drivers import shampoo_props as sp
 
-OWN = re.compile(r"trace\.(raised|calls|rootAt|reached)$|spec\.(RaiseIffRun|NoParamChangeOnRaise|KeepPreviousOnFail)"
+OWN = re.compile(r"trace\.(raised|calls|rootAt|reached|lCnt|mCnt)$|spec\.(RaiseIffRun|NoParamChangeOnRaise|KeepPreviousOnFail)"
                  r"|changed_on_raise|stored_root_finite|untouched_after_abort|unidentified_matrix_call")
 
 
